@@ -145,9 +145,17 @@ pub fn check_one(s: &[u8]) -> CaseResult {
             (Err(e), true) => return Err(Failure::new("UnixStr::try_from_str|rejected-valid", format!("UnixStr::try_from_str({inp}) rejected: {e}"))),
         }
         if borrow_ok {
-            // documented to panic on invalid input: only fed valid input
             let u = no_panic("UnixStr::from_str_checked", || UnixStr::from_str_checked(st))?;
             terminated("UnixStr::from_str_checked", &inp, u.as_slice(), u.as_ptr(), u.len(), true)?;
+        } else {
+            // the validator behind unix_lit!: documented to panic (a compile-time error in const
+            // context) on anything else - the panic IS its rejection; what it must never do is hand
+            // out a value for such input
+            if let Ok(b) = crate::runner::catch(|| UnixStr::from_str_checked(st).as_slice().to_vec()) {
+                return Err(Failure::new("UnixStr::from_str_checked|accepted-invalid", format!("UnixStr::from_str_checked({inp}) returned a value: {:?}", escape(&b))));
+            }
+            rep.class("const-validator-rejected");
+            rep.class_if(s.first() == Some(&0), "const-validator-rejected-leading-nul");
         }
     }
 
